@@ -4,7 +4,8 @@
    from /repo on every run. *)
 From Coq Require Import ZArith List Bool String.
 From NQ Require Import Base.Bits Lang.Codec Lang.CodecCheck Lang.Asm Lang.AsmSem Lang.Text Lang.TextFront Lang.AsmCheck Proofs.AsmProofs.
-From NQ Require Import Lang.AsmSemQ Lang.AsmQLog Lang.AsmQCheck Proofs.AsmQProofs Proofs.AsmQExport Proofs.AsmResProofs.
+From NQ Require Import Lang.AsmSemQ Lang.AsmQLog Lang.AsmQCheck Proofs.AsmQProofs Proofs.AsmQExport Proofs.AsmResProofs Proofs.AsmQMachine.
+From NQ Require Import Proofs.Bridge_AsmQ.
 From NQ Require Import Proofs.TextFrontProofs Proofs.TextFrontDecoProofs Proofs.TextFrontMacroProofs Proofs.TextFrontMeaning.
 From Gen Require Import Gen_Codec Gen_Asm.
 Import ListNotations.
@@ -244,6 +245,24 @@ Proof.
   exact (assemble_halts_no_bad_q gen_params P T bad (proj1 C03_params_ok) C03_qexempt_ok Hwf Hasm).
 Qed.
 
+(* the assembler's output is in machine form: accepted by the embedding into the common semantics
+   (Bridge_AsmQ.e_qprog), for programs over the modelled mnemonics; and the assembler accepts when the
+   labels are distinct and every command finds enough unnamed R registers *)
+Theorem C03_qexempt_exact : qexempt_exact gen_exempt = true /\ bank_valid (ap_bankR gen_params) = true.
+Proof. vm_compute. split; reflexivity. Qed.
+
+Theorem C03_assemble_machine_form P T :
+  wf_src_q P = true -> modelled P = true -> banks_valid P = true -> labels_defined P = true ->
+  assemble_ir gen_params P = AOk T ->
+  exists p, e_qprog T = Some p.
+Proof. exact (assemble_machine_form gen_params P T (proj1 C03_qexempt_exact) (proj2 C03_qexempt_exact)). Qed.
+
+Theorem C03_assemble_ir_accepts P :
+  NoDup (labels_of P) ->
+  (forall c, In c P -> (need_cmd (ap_exempt gen_params) c <= List.length (free_regs gen_params (named P)))%nat) ->
+  exists T, assemble_ir gen_params P = AOk T.
+Proof. exact (assemble_ir_accepts gen_params P). Qed.
+
 (* ---------- reserved registers (assemble_subroutine(..., reserved_registers=...)) ---------- *)
 
 (* scratch registers avoid the named AND the reserved registers *)
@@ -377,3 +396,5 @@ Print Assumptions C03_assemble_halts_no_bad_q.
 Print Assumptions C03_scratch_fresh_res.
 Print Assumptions C03_assemble_simulates_res.
 Print Assumptions C03_reserved_preserved.
+Print Assumptions C03_assemble_machine_form.
+Print Assumptions C03_assemble_ir_accepts.
